@@ -219,5 +219,5 @@ def _set_mtime(env, path, mtime):
     else:
         import os
 
-        st = os.stat(path)
-        os.utime(path, ns=(st.st_atime_ns, int(round(mtime * 1e9))))
+        sec = int(mtime)  # integer arithmetic: mtime * 1e9 in floating point is only accurate to ~256 ns at today's epoch values
+        os.utime(path, ns=(sec * 1_000_000_000, sec * 1_000_000_000 + round((mtime - sec) * 1e9)))
